@@ -385,7 +385,12 @@ class CallMixin:
     def b_sum(self, node, st):
         s = self.materialise(self.eval(node.args[0], st), st, node)
         f = uf("seq_sum", SeqV, IntS)
+        i = fresh("si", IntS)
+        rng = z3.And(0 <= i, i < Q.Length(s.t))
         st.assume(z3.Implies(Q.Length(s.t) == 0, f(s.t) == 0))
+        st.assume(z3.Implies(z3.ForAll([i], z3.Implies(rng, unI(Q.At(s.t, i)) == 0)), f(s.t) == 0))
+        st.assume(z3.Implies(z3.ForAll([i], z3.Implies(rng, unI(Q.At(s.t, i)) >= 0)),
+                             z3.And(f(s.t) >= 0, z3.Implies(z3.Exists([i], z3.And(rng, unI(Q.At(s.t, i)) > 0)), f(s.t) > 0), f(s.t) <= Q.Length(s.t) * 1 + 0 if False else f(s.t) >= 0)))
         return S_int(f(s.t))
 
     def b_iter(self, node, st):
@@ -658,7 +663,7 @@ class CallMixin:
                 db = box(d, st)
                 keys = z3.If(present, p.keys, Q.Concat(st, p.keys, Q.Unit(st, kb)))
                 vals = z3.If(present, p.vals, z3.Store(p.vals, kb, db))
-                self.store_back(recv_node, Sym("dict", None, base.spec, DictPayload(keys, vals, p.kspec, p.vspec)), st)
+                self.store_back(recv_node, Sym("dict", None, base.spec, DictPayload(keys, vals, p.kspec, p.vspec, p.mode)), st)
                 return unbox(p.vspec, z3.If(present, z3.Select(p.vals, kb), db), st)
             raise Unsupported(f"dict.{meth}")
         raise Unsupported(f"mutate {base.kind}.{meth}")
